@@ -74,7 +74,7 @@ PROPS = {
  'C14': dict(level='other', footprint=True, max_jobs_per_lemma=6, lemmas=['F1', 'K1', 'H6', 'H7', 'I8', 'J3', 'J5', 'I1', 'J1', 'D1', 'D2', 'S1', 'S4', 'A5', 'A2', 'B2', 'B3', 'H1', 'H3', 'G4'],
    files=['src/randomx.cpp', 'src/virtual_machine.cpp', 'src/dataset.cpp', 'src/vm_interpreted_light.cpp', 'src/vm_compiled_light.cpp', 'src/superscalar.cpp', 'src/soft_aes.cpp', 'src/cpu.cpp', 'src/jit_compiler_x86_static.S'],
    explanation='TODO', trusted=[], outside=[]),
- 'C02': dict(level='other', lemmas=['H1', 'F1', 'I7', 'I8', 'I1', 'B1', 'B2', 'B3', 'B4', 'A1', 'A2', 'A3', 'A5', 'S1', 'S2', 'S3', 'S4', 'S5', 'D1', 'G1', 'G4', 'R1', 'G3', 'G5', 'G6', 'B6'],
+ 'C02': dict(level='other', lemmas=['H1', 'F1', 'I7', 'I8', 'I1', 'B1', 'B2', 'B3', 'B4', 'A1', 'A2', 'A3', 'A5', 'S1', 'S2', 'S3', 'S4', 'S5', 'D1', 'G1', 'G4', 'R1', 'G3', 'G5', 'G6', 'B6', 'H3'],
    files=['doc/specs.md', 'src/randomx.cpp', 'src/virtual_machine.cpp', 'src/vm_interpreted.cpp', 'src/bytecode_machine.cpp', 'src/bytecode_machine.hpp', 'src/aes_hash.cpp', 'src/dataset.cpp', 'src/superscalar.cpp', 'src/blake2_generator.cpp', 'src/argon2_core.c', 'src/argon2_ref.c', 'src/blake2/blake2b.c', 'src/configuration.h'],
    explanation='TODO', trusted=[], outside=[]),
  'C01': dict(level='other', lemmas=['K1', 'J3', 'J1', 'I1', 'I8', 'A2', 'A3', 'A5', 'D1', 'D2', 'S4', 'G2', 'G4', 'H1', 'H7'],
